@@ -87,6 +87,15 @@ def check_table(case):
             names = code.get_names(rn, a)
             if names != (exp[2], exp[3]):
                 res.bad("C01:table:native-names", f"{ff} {rn} {a}: code names {names} != {exp[2:]}")
+    # pinned naming map (one direction: entries of the pinned map must still resolve to the same
+    # native residue/atom; additional entries are allowed)
+    pinned = ffmodel.golden_native()[ff].get(rn, {})
+    for a, nat in pinned.items():
+        names = code.get_names(rn, a)
+        if tuple(nat) != tuple(names):
+            res.bad("C01:table:naming-map", f"{ff} {rn} {a}: resolves to native {names}, the documented/pinned map gives {tuple(nat)}")
+    if pinned:
+        res.label("pinned-map")
     res.nontrivial = hits > 0
     res.label(f"ff={ff}", "defined" if hits else "undefined")
     return res
